@@ -46,8 +46,13 @@
                [r'\b(\w+)->size\(\)', r'vc_string_size(\1)', 1]]},
   {'op': 'func', 'file': 'igris/util/base64.cpp', 'name': 'base64url_decode', 'as': 'base64url_decode_str', 'refs': ['s'],
    'sig_rewrite': [[r'\bstd::string\b', 'struct vc_string', 2]],
-   'rewrite': [[r'\bbase64_(en|de)code\(\(\*(\w+)\)\)', r'base64_\1code_str(\2)', 1],
-               [r'\bstd::string\s+(\w+) = ', r'struct vc_string \1 = ', 1],
+   # the first four rules depend on the shape of the body (unchanged tree: `std::string ret = base64_encode(s);` ... `return ret;`;
+   # after proposed_fixes/C18_base64url_decode_encodes.patch: `std::string ret = s;` ... `return base64_decode(ret);`), so they may fire 0 times;
+   # a std::string construct that no rule converts does not compile as C and the run ends with exit 2, never with a verdict
+   'rewrite': [[r'\bbase64_(en|de)code\(\(\*(\w+)\)\)', r'base64_\1code_str(\2)', 0],
+               [r'\bstd::string\s+(\w+) = \(\*(\w+)\);', r'struct vc_string \1 = vc_string_copy(\2);', 0],
+               [r'\bstd::string\s+(\w+) = ', r'struct vc_string \1 = ', 0],
+               [r'\breturn base64_decode\((\w+)\);', r'return base64_decode_str(&\1);', 0],
                [r'\bauto (\w+) = (\w+)\.begin\(\);', r'char *\1 = vc_string_begin(&\2);', 1],
                [r'\bauto (\w+) = (\w+)\.end\(\);', r'char *\1 = vc_string_end(&\2);', 1]]},
  ],
